@@ -355,7 +355,7 @@ struct Run {
                 case IT_ARRAY: {
                     int et = (int) clampl(it.arg(1), 0, E_NTYPES - 1);
                     int fmtv = (int) clampl(it.arg(2), 0, 2);
-                    size_t cnt = (size_t) clampl(it.arg(3), 0, 400);
+                    size_t cnt = (size_t) clampl(it.arg(3), 0, 70000);
                     uint64_t seed = (uint64_t) it.arg(4);
                     size_t sz = ELEM_SIZE[et];
                     std::vector<uint64_t> bits(cnt);
@@ -639,6 +639,11 @@ void gen_item(Rng &r, Plan &p, bool c17, bool misuse) {
     else
         kind = pickv<int>({IT_I32, IT_U32B, IT_I64, IT_U64B, IT_BOOL, IT_MNEM, IT_TEXT, IT_DOUBLE, IT_FLOAT, IT_BLOCK, IT_SBLOCK, IT_ARRAY, IT_SMALL, IT_I32}, r);
     static const int bases[] = {2, 8, 10, 16, 10, 16};
+    if (!c17 && r.chance(1, 3000)) {
+        // a response unit with more than 32767 items (ASCII array): item counters must not wrap
+        p.ops.push_back(Op("it", {IT_ARRAY, (long) (r.chance(1, 2) ? E_I8 : E_U8), 0, r.range(32760, 40000), (long) r.below(1000000)}));
+        return;
+    }
     if (c17 && r.chance(1, 1500)) {
         long len = r.chance(1, 2) ? 65536 + r.range(-2, 6) : (r.chance(1, 2) ? 131072 + r.range(-1, 4) : r.range(60000, 200000));
         p.ops.push_back(Op("it", {IT_BIG, len, r.chance(1, 3) ? 0 : r.range(500, 70000), (long) r.below(1000000)}));
@@ -735,6 +740,18 @@ void generate_output(Rng &r, const GenOpts &g, Plan &p, bool c17) {
             if (j == push_at) p.ops.push_back(Op("it", {IT_PUSH, -(long) r.range(200, 299)}));
             if (j < ni) gen_item(r, p, c17, c17 && r.chance(1, 3));
             if (j < ni && c17 && r.chance(1, 5)) p.ops.push_back(Op("it", {IT_STRAY}, rand_bytes(r, r.range(1, 6))));
+            if (j < ni && c17 && r.chance(1, 12)) {
+                // scenario: a block left unfinished, then an EMPTY block / array, then data that would have fitted the first one
+                long len = r.range(3, 9), sent = r.range(1, len - 1);
+                p.ops.push_back(Op("it", {IT_SBLOCK, len, sent}, rand_bytes(r, sent)));
+                switch (r.below(3)) {
+                    case 0: p.ops.push_back(Op("it", {IT_HEADER, 0})); break;
+                    case 1: p.ops.push_back(Op("it", {IT_BLOCK}, "")); break;
+                    default: p.ops.push_back(Op("it", {IT_ARRAY, (long) r.below(E_NTYPES), r.range(1, 2), 0, 1})); break;
+                }
+                p.ops.push_back(Op("it", {IT_STRAY}, rand_bytes(r, r.range(1, len - sent))));
+                if (r.chance(1, 2)) p.ops.push_back(Op("it", {IT_I32, 5}));
+            }
         }
     }
     long nm = r.chance(1, 2) ? 1 : r.range(2, 4);
